@@ -161,6 +161,8 @@ def floor_msgs(counters, reqs):
     return out
 
 
+EVOLVE_NOTE = ' In addition the novelty-guided mutational generator (harness/src/evolve.rs) derives histories from a corpus (directed corpus + random seeds + every history that showed a new behaviour feature: callback nesting x operation / outcome, hidden-state classes of objects and edges) by small edits; they run under the same oracles and are counted the same way.'
+
 COMMON_ASSUMPTIONS = [
     "the generated programs obey the Trace safety contract (trace impls trace exactly their traced slots; Drop impls touch no Cc)",
     "the shadow model (API-level holder multiset) and the instrumented global allocator are correct; both were run silent over millions of histories on the repaired tree and fire on the seeded mutants listed in DESIGN.md",
